@@ -10,6 +10,6 @@ python3 tools/t6_twiddles.py
 (cd harness && cargo build --release --offline)
 python3 tools/t2_bflyops.py
 (cd lean && lake build rfvmodel && lake build RFV RFV.AllProps)
-(cd harness && cargo build --release --offline && cargo build --release --offline --no-default-features --target-dir /verif/.build/cargo-none)
+(cd harness && cargo build --release --offline && cargo build --release --offline --no-default-features --target-dir /verif/.build/cargo-none && cargo build --release --offline --no-default-features --features avx,sse --target-dir /verif/.build/cargo-nodebug --config profile.release.debug-assertions=false --config profile.release.overflow-checks=false)
 (cd witness && cargo build --offline)
 echo "setup ok"
